@@ -44,6 +44,7 @@ import Pandora.Proofs.C04Sim
 import Pandora.Proofs.C04Ext
 import Pandora.Proofs.C04PoolSim
 import Pandora.Bridge.Waiter
+import Pandora.Props.C01
 
 namespace Pandora.Props.C04
 open Pandora.Go.C04 Pandora.Model.C04 Pandora.Proofs.C04
@@ -1135,5 +1136,220 @@ example : psimOwn 0 psToks psSteps = [0, 400000000] ∧ psimOwn 1 psToks psSteps
 example : zeroTime ≤ psT0 0 ∧ zeroTime ≤ psT0 1 ∧ (∀ tok ∈ psToks, tok ≤ 0 + 500000000) ∧
     (∀ c ∈ psSteps, (c.2.dur : Int) ≤ 3000000000 ∧ (c.2.dPick : Int) ≤ 1000 ∧ (c.2.dNow : Int) + c.2.dArm + c.2.dLag ≤ 6000) ∧
     psT0 1 ≤ 0 + 500000000 + maxOverdue + 6000 + 3000000000 := by decide
+
+end Pandora.Props.C04
+
+namespace Pandora.Props.C04
+open Pandora.Go.C04 Pandora.Model.C04 Pandora.Proofs.C04
+
+/-! ### round 6: composition with the load profile (C01's regenerated schedule constructors and start protocol)
+
+The theorems above speak about "the token's time" - whatever instant the schedule handed to the instance. The property speaks
+about the request's SCHEDULED time, which the configured load profile defines. C01 proves, over `Gen.Schedule` /
+`Gen.SchedConc` (regenerated from core/schedule on every check, areas `schedule` and `schedconc`, now also regenerated for
+C04), what the schedules hand out; here the two are composed. -/
+
+section profile
+open Pandora Pandora.Gen.Schedule Pandora.Bridge.Schedule
+
+/-- **profile → waiter** (any leaf that realises a profile: by `C01_const` / `C01_line` every accepted const and line
+configuration, fractional-second durations included): the started schedule answers call `j < n` with `t0 + at_ j`, where
+`at_ j` is the ns-truncation of the EARLIEST instant `x` at which the integral `c` of the configured rate reaches `j`; and
+whatever the state of the Waiter and whichever variant, a `Wait` that was handed that answer returns true not before
+`t0 + ⌊x·10⁹⌋`: no request is fired before the instant the PROFILE schedules it. -/
+theorem C04_profile_no_early (s : Sched) (c : ℝ → ℝ) (D : ℤ) (hs : C01.Realises s c D) :
+    ∃ (n : ℤ) (at_ : ℤ → ℤ), s = Sched.doAt D n at_ ∧ n = ⌊c (secs D)⌋ ∧
+      ∀ (t0 : ℤ) (nows : List ℤ) (j : ℕ), j < nows.length → (j : ℤ) < n →
+        ∃ rs, C01.startAndDrain D n at_ t0 nows = Except.ok rs ∧ rs[j]? = some (t0 + at_ j, true) ∧
+          ∃ x : ℝ, C01.EarliestAt c D j x ∧ at_ j = ⌊x * 1000000000⌋ ∧
+            ∀ (v : Variant) (w : Waiter) (e : Env), EnvOK e → w.lastNow ≤ e.now → e.tok = some (t0 + at_ j) →
+              (waitV v w e).ok = true → t0 + ⌊x * 1000000000⌋ ≤ e.ret := by
+  obtain ⟨n, at_, rfl, hn, hk⟩ := hs
+  refine ⟨n, at_, rfl, hn, ?_⟩
+  intro t0 nows j hj hjn
+  refine ⟨_, C01.C01_leaf_run D n at_ t0 nows, ?_, ?_⟩
+  · have : ¬ n ≤ (j : ℤ) := by omega
+    simp [hj, this]
+  · obtain ⟨x, hx, hat, _, _⟩ := hk (j : ℤ) (by omega) hjn
+    refine ⟨x, by simpa using hx, hat, ?_⟩
+    intro v w e hok hinv htok hwait
+    obtain ⟨next, h1, h2⟩ := C04_no_early_wait v w e hok hinv hwait
+    rw [htok] at h1
+    injection h1 with h1
+    rw [← hat]; omega
+
+/-- **line profile → waiter**: `C04_profile_no_early` for every accepted line configuration (the constructor regenerated from
+core/schedule/line.go, the validity predicate from its struct tags). -/
+theorem C04_line_no_early (f t : ℝ) (D : ℤ) (h : LineConfig_valid f t D) :
+    ∃ (n : ℤ) (at_ : ℤ → ℤ), NewLineConf f t D = Sched.doAt D n at_ ∧ n = ⌊(f + t) / 2 * secs D⌋ ∧
+      ∀ (t0 : ℤ) (nows : List ℤ) (j : ℕ), j < nows.length → (j : ℤ) < n →
+        ∃ rs, C01.startAndDrain D n at_ t0 nows = Except.ok rs ∧ rs[j]? = some (t0 + at_ j, true) ∧
+          ∃ x : ℝ, C01.EarliestAt (C01.lineCum f t D) D j x ∧ at_ j = ⌊x * 1000000000⌋ ∧
+            ∀ (v : Variant) (w : Waiter) (e : Env), EnvOK e → w.lastNow ≤ e.now → e.tok = some (t0 + at_ j) →
+              (waitV v w e).ok = true → t0 + ⌊x * 1000000000⌋ ≤ e.ret := by
+  obtain ⟨hr, htot⟩ := C01.C01_line f t D h
+  obtain ⟨n, at_, h1, h2, h3⟩ := C04_profile_no_early _ _ D hr
+  exact ⟨n, at_, h1, by rw [h2, htot], h3⟩
+
+/-- **const profile → waiter** -/
+theorem C04_const_no_early (ops : ℝ) (D : ℤ) (h : ConstConfig_valid ops D) :
+    ∃ (n : ℤ) (at_ : ℤ → ℤ), NewConstConf ops D = Sched.doAt D n at_ ∧ n = ⌊ops * secs D⌋ ∧
+      ∀ (t0 : ℤ) (nows : List ℤ) (j : ℕ), j < nows.length → (j : ℤ) < n →
+        ∃ rs, C01.startAndDrain D n at_ t0 nows = Except.ok rs ∧ rs[j]? = some (t0 + at_ j, true) ∧
+          ∃ x : ℝ, C01.EarliestAt (C01.constCum ops) D j x ∧ at_ j = ⌊x * 1000000000⌋ ∧
+            ∀ (v : Variant) (w : Waiter) (e : Env), EnvOK e → w.lastNow ≤ e.now → e.tok = some (t0 + at_ j) →
+              (waitV v w e).ok = true → t0 + ⌊x * 1000000000⌋ ≤ e.ret := by
+  obtain ⟨n, at_, h1, h2, h3⟩ := C04_profile_no_early _ _ D (C01.C01_const ops D h)
+  exact ⟨n, at_, h1, by rw [h2]; rfl, h3⟩
+
+/-- **lazy start of a shared profile → the waiters of a pool**: a leaf `doAt D n f` that is never `Start()`ed (what
+`NewRPSSchedule` gives to a pool) and is asked by any number of instances at the same time, in ANY interleaving of their accesses
+to its shared state (`sched` = who moves next and what the clock shows then; the program of `Next` is the REGENERATED
+`Gen.SchedConc.nextProg`): there is ONE instant `v`, a clock reading taken during the run, such that every finished call with
+an index `idx < n` answered `v + f idx` (no answer is based on an unset start), and every `Wait` - any Waiter state, either
+variant - that was handed such an answer returns true not before `v + f idx`. -/
+theorem C04_pool_lazy_start_no_early (D n : ℤ) (f : ℤ → ℤ) (sched : List (ℕ × ℤ)) :
+    ∃ v, ((Model.C01Conc.run 0 (Model.C01Conc.initLazy Gen.SchedConc.nextProg) sched).log = [] ∨
+            v ∈ sched.map Prod.snd) ∧
+      ∀ a ∈ (Model.C01Conc.run 0 (Model.C01Conc.initLazy Gen.SchedConc.nextProg) sched).log, a.idx < n →
+        0 ≤ a.idx ∧ Model.C01Conc.ansOf D n f a = some (v + f a.idx, true) ∧
+        ∀ (vr : Variant) (w : Waiter) (e : Env), EnvOK e → w.lastNow ≤ e.now → e.tok = some (v + f a.idx) →
+          (waitV vr w e).ok = true → v + f a.idx ≤ e.ret := by
+  obtain ⟨v, hv, _, _, hlog⟩ := C01.C01_lazy_start_concurrent D n f sched
+  refine ⟨v, hv, ?_⟩
+  intro a ha hidx
+  obtain ⟨hidx0, _, _, hans⟩ := hlog a ha
+  obtain ⟨r, s', _, h2, h3⟩ := hans 0
+  have hn : ¬ n ≤ a.idx := by omega
+  refine ⟨hidx0, by rw [h2, h3]; simp [hn], ?_⟩
+  intro vr w e hok hinv htok hwait
+  obtain ⟨next, h1, h2'⟩ := C04_no_early_wait vr w e hok hinv hwait
+  rw [htok] at h1
+  injection h1 with h1
+  omega
+
+/-- **end to end** (config → constructor → lazy start under contention → waiter): for every accepted line configuration, the
+instances of a pool that share its never-started schedule, any interleaving: one start instant `v` read from the clock during
+the run; the call that drew index `idx` hands its instance `v + ⌊x·10⁹⌋` with `x` the earliest instant at which the configured
+integral reaches `idx`, and that instance's `Wait` returns true not before it. -/
+theorem C04_line_pool_no_early (f t : ℝ) (D : ℤ) (h : LineConfig_valid f t D) (sched : List (ℕ × ℤ)) :
+    ∃ (n : ℤ) (at_ : ℤ → ℤ) (v : ℤ), NewLineConf f t D = Sched.doAt D n at_ ∧
+      ((Model.C01Conc.run 0 (Model.C01Conc.initLazy Gen.SchedConc.nextProg) sched).log = [] ∨ v ∈ sched.map Prod.snd) ∧
+      ∀ a ∈ (Model.C01Conc.run 0 (Model.C01Conc.initLazy Gen.SchedConc.nextProg) sched).log, a.idx < n →
+        ∃ x : ℝ, C01.EarliestAt (C01.lineCum f t D) D a.idx x ∧
+          Model.C01Conc.ansOf D n at_ a = some (v + ⌊x * 1000000000⌋, true) ∧
+          ∀ (vr : Variant) (w : Waiter) (e : Env), EnvOK e → w.lastNow ≤ e.now → e.tok = some (v + ⌊x * 1000000000⌋) →
+            (waitV vr w e).ok = true → v + ⌊x * 1000000000⌋ ≤ e.ret := by
+  obtain ⟨⟨n, at_, hnew, _, hk⟩, _⟩ := C01.C01_line f t D h
+  obtain ⟨v, hv, hlog⟩ := C04_pool_lazy_start_no_early D n at_ sched
+  refine ⟨n, at_, v, hnew, hv, ?_⟩
+  intro a ha hidx
+  obtain ⟨h0, hans, hw⟩ := hlog a ha hidx
+  obtain ⟨x, hx, hat, _, _⟩ := hk a.idx h0 hidx
+  refine ⟨x, hx, by rw [hans, hat], ?_⟩
+  intro vr w e hok hinv htok hwait
+  rw [← hat] at htok ⊢
+  exact hw vr w e hok hinv htok hwait
+
+end profile
+
+end Pandora.Props.C04
+
+namespace Pandora.Props.C04
+open Pandora.Go.C04 Pandora.Model.C04 Pandora.Proofs.C04
+open Pandora Pandora.Gen.Schedule Pandora.Bridge.Schedule
+
+/-! non-vacuity of the round-6 compositions -/
+
+-- line 0 → 40 ops/s over 1.5 s (a duration with a fraction of a second): 30 operations; operation 19 of a schedule started at 0
+-- is handed to a fresh Waiter at the very instant it is due: all hypotheses of `C04_line_no_early` hold together
+example : ∃ (n : ℤ) (at_ : ℤ → ℤ), NewLineConf 0 40 1500000000 = Sched.doAt 1500000000 n at_ ∧ n = 30 ∧ (19 : ℤ) < n ∧
+    ∃ e : Env, EnvOK e ∧ Waiter.init.lastNow ≤ e.now ∧ e.tok = some (0 + at_ 19) ∧ (waitV .fresh Waiter.init e).ok = true := by
+  obtain ⟨n, at_, h1, h2, h3⟩ := C04_line_no_early 0 40 1500000000
+    ((Bridge.C01.LineConfig_valid_iff 0 40 1500000000).mpr ⟨by norm_num, by norm_num, by norm_num⟩)
+  have hn : n = 30 := by
+    rw [h2]; unfold secs
+    have : ((0 : ℝ) + 40) / 2 * (((1500000000 : ℤ) : ℝ) / 1000000000) = ((30 : ℤ) : ℝ) := by norm_num
+    rw [this, Int.floor_intCast]
+  obtain ⟨rs, _, _, x, hx, hat, _⟩ := h3 0 (List.replicate 20 0) 19 (by simp) (by omega)
+  have h0 : 0 ≤ at_ 19 := by
+    have : at_ ((19 : ℕ) : ℤ) = ⌊x * 1000000000⌋ := hat
+    simp only [Nat.cast_ofNat] at this
+    rw [this]; exact Int.floor_nonneg.mpr (mul_nonneg hx.1 (by norm_num))
+  refine ⟨n, at_, h1, hn, by omega, ⟨{ tok := some (0 + at_ 19), now := at_ 19, arm := at_ 19, ret := at_ 19 }, ?_, ?_, rfl, ?_⟩⟩
+  · refine ⟨le_refl _, le_refl _, ?_⟩
+    intro next hmem _ hlt
+    simp at hmem hlt
+    omega
+  · show zeroTime ≤ at_ 19
+    unfold zeroTime; omega
+  · have hz : ¬ (0 + at_ 19 - (-62135596800000000000) ≤ 0) := by omega
+    simp [waitV, timeSub, Waiter.init, zeroTime]
+    split <;> rfl
+
+-- two instances take their first token from a never-started leaf at the same time: instance 0 wins the Once and reads the clock
+-- (10), instance 1 waits for it; both calls finish, with indices 0 and 1, both below n = 5
+example : (Model.C01Conc.run 0 (Model.C01Conc.initLazy Gen.SchedConc.nextProg)
+      [(0, 10), (1, 11), (0, 10), (0, 10), (0, 10), (0, 10), (0, 10), (1, 11), (1, 11), (1, 11), (1, 11), (1, 11)]).log.map (·.idx) = [1, 0] ∨
+    (Model.C01Conc.run 0 (Model.C01Conc.initLazy Gen.SchedConc.nextProg)
+      [(0, 10), (1, 11), (0, 10), (0, 10), (0, 10), (0, 10), (0, 10), (1, 11), (1, 11), (1, 11), (1, 11), (1, 11)]).log.map (·.idx) = [0, 1] := by
+  decide
+
+end Pandora.Props.C04
+
+namespace Pandora.Props.C04
+open Pandora.Go.C04 Pandora.Model.C04 Pandora.Proofs.C04
+open Pandora Pandora.Gen.Schedule Pandora.Bridge.Schedule
+
+/-- the tokens a leaf `doAt D n at_` started at `start` hands out, in order -/
+def profileToks (start n : ℤ) (at_ : ℤ → ℤ) : List Int := (List.range n.toNat).map fun (j : ℕ) => start + at_ (j : ℤ)
+
+/-- **profile duration → run length** (the clause "the length of a run stays bounded by the profile duration plus response time"
+with the duration being the CONFIGURED one): for every leaf that realises a profile of duration `D` (every accepted const / line
+configuration: `C01_const`, `C01_line`) started at `start`, any number of instances on that one schedule in the closed world of
+`psim` (arbitrary interleaving, late starters, arbitrary response times ≤ R, discard_overflow on): the loop of every instance ends, and
+its k-th action is over by `start + D + 2 s + ε + R + (k+1)(δ+ε)`. The hypothesis about the tokens of `C04_pool_sim_run_bounded` is
+discharged from the profile. -/
+theorem C04_profile_run_bounded (s : Sched) (cum : ℝ → ℝ) (D : ℤ) (hs : C01.Realises s cum D) :
+    ∃ (n : ℤ) (at_ : ℤ → ℤ), s = Sched.doAt D n at_ ∧
+      ∀ (start : ℤ) (t0 : Nat → Int) (cs : List (Nat × Delays)) (i : Nat) (R ε δ : Int),
+        0 ≤ ε → 0 ≤ δ → 0 ≤ R → zeroTime ≤ t0 i →
+        (∀ c ∈ cs, c.1 = i → (c.2.dur : Int) ≤ R ∧ (c.2.dPick : Int) ≤ δ ∧ (c.2.dNow : Int) + c.2.dArm + c.2.dLag ≤ ε) →
+        t0 i ≤ start + D + maxOverdue + ε + R →
+        (∀ tok ∈ profileToks start n at_, start ≤ tok ∧ tok ≤ start + D) ∧
+        (runLoop .fresh true Waiter.init (psimHist true (profileToks start n at_) t0 cs i)).2 = .loopEnd ∧
+        (∀ k ev, (runLoop .fresh true Waiter.init (psimHist true (profileToks start n at_) t0 cs i)).1[k]? = some ev →
+          endT ev ≤ chainBound (start + D + maxOverdue + ε + R) (δ + ε) k) := by
+  obtain ⟨n, at_, rfl, _, hk⟩ := hs
+  refine ⟨n, at_, rfl, ?_⟩
+  intro start t0 cs i R ε δ hε hδ hR h0 hps ht
+  have htoks : ∀ tok ∈ profileToks start n at_, start ≤ tok ∧ tok ≤ start + D := by
+    intro tok htok
+    unfold profileToks at htok
+    simp only [List.mem_map, List.mem_range] at htok
+    obtain ⟨j, hj, rfl⟩ := htok
+    have hj0 : (0 : ℤ) ≤ (j : ℤ) := Int.natCast_nonneg j
+    have hjn : (j : ℤ) < n := by
+      have : (j : ℤ) < (n.toNat : ℤ) := by exact_mod_cast hj
+      have h2 : ((n.toNat : ℕ) : ℤ) = max n 0 := Int.toNat_eq_max n
+      rcases le_total n 0 with hn | hn
+      · rw [h2, max_eq_right hn] at this; omega
+      · rw [h2, max_eq_left hn] at this; exact this
+    obtain ⟨_, _, _, h1, h2⟩ := hk (j : ℤ) hj0 hjn
+    constructor <;> linarith
+  obtain ⟨h1, h2⟩ := C04_pool_sim_run_bounded (profileToks start n at_) t0 cs i start D R ε δ hε hδ hR h0
+    (fun tok h => (htoks tok h).2) hps ht
+  exact ⟨htoks, h1, h2⟩
+
+/-- non-vacuity of `C04_profile_run_bounded`: the line 0 → 40 ops/s over 1.5 s realises its profile (`C01_line`), and the world of
+`psSteps` / `psT0` (two instances, one a late starter, 3 s responses) meets the remaining hypotheses with start 0, R = 3 s,
+ε = 6 µs, δ = 1 µs -/
+example : C01.Realises (NewLineConf 0 40 1500000000) (C01.lineCum 0 40 1500000000) 1500000000 ∧
+    zeroTime ≤ psT0 1 ∧
+    (∀ c ∈ psSteps, c.1 = 1 → (c.2.dur : Int) ≤ 3000000000 ∧ (c.2.dPick : Int) ≤ 1000 ∧ (c.2.dNow : Int) + c.2.dArm + c.2.dLag ≤ 6000) ∧
+    psT0 1 ≤ 0 + 1500000000 + maxOverdue + 6000 + 3000000000 :=
+  ⟨(C01.C01_line 0 40 1500000000
+      ((Bridge.C01.LineConfig_valid_iff 0 40 1500000000).mpr ⟨by norm_num, by norm_num, by norm_num⟩)).1,
+    by decide, by decide, by decide⟩
 
 end Pandora.Props.C04
